@@ -269,6 +269,32 @@ impl Built {
         };
         q.into_iter().map(|v| v.inner()).collect()
     }
+    /// SamplingStrategy::sample on the same object (None: the strategy offers no single draws)
+    pub fn sample_single(&self, rng: &mut ScriptRng) -> Option<u64> {
+        Some(match self {
+            Built::AllSame(s) => s.sample(rng).inner(),
+            Built::Uniform(s) => s.sample(rng).inner(),
+            Built::Stake(s) => s.sample(rng).inner(),
+            Built::Turbine(s) => s.sample(rng).inner(),
+            Built::Decay(s) => if rng.prefix.len() % 2 == 0 { s.sample(rng).inner() } else { s.sample_info(rng).id.inner() },
+            _ => return None,
+        })
+    }
+    /// Clone (copies the decaying sampler's counters)
+    pub fn clone_instance(&self) -> Option<Built> {
+        Some(match self {
+            Built::AllSame(s) => Built::AllSame(s.clone()),
+            Built::Uniform(s) => Built::Uniform(s.clone()),
+            Built::Stake(s) => Built::Stake(s.clone()),
+            Built::Turbine(s) => Built::Turbine(s.clone()),
+            Built::Decay(s) => Built::Decay(s.clone()),
+            _ => return None,
+        })
+    }
+    /// DecayingAcceptanceSampler::reset (nothing to reset elsewhere)
+    pub fn reset(&self) {
+        if let Built::Decay(s) = self { s.reset(); }
+    }
     pub fn bins(&self) -> Vec<Vec<(u64, u64)>> {
         let p = match self {
             Built::Partition(p) => p,
@@ -404,7 +430,7 @@ pub fn gen_c17(seed: u64, tier: Tier) -> CaseSet {
     // ---- structured sweep ----
     let ns_quick: [usize; 14] = [1, 2, 3, 4, 5, 7, 10, 33, 49, 64, 65, 100, 200, 1000];
     let ks: [u64; 7] = [1, 2, 3, 32, 49, 64, 200];
-    let nconf = if thorough { 6000 } else { 640 };
+    let nconf = if thorough { 6000 } else { 540 };
     for i in 0..nconf {
         let n = if thorough && rng.chance(1, 3) { rng.range(1, 64) as usize } else if rng.chance(1, 12) { 2000 } else { *rng.pick(&ns_quick) };
         let k = if rng.chance(1, 3) { 64 } else { *rng.pick(&ks) };
@@ -487,7 +513,7 @@ pub fn gen_c17(seed: u64, tier: Tier) -> CaseSet {
                 if b1.is_none() || b2.is_none() { break; }
             }
         }
-        let txt = format!("(mkC17 {} {} {} {} {} {} {})", cf::n(cid), cf::list(&p.stakes.iter().map(|s| cf::n(*s)).collect::<Vec<_>>()), st.coq(), ctor_txt,
+        let txt = format!("(CPlain (mkC17 {} {} {} {} {} {} {}))", cf::n(cid), cf::list(&p.stakes.iter().map(|s| cf::n(*s)).collect::<Vec<_>>()), st.coq(), ctor_txt,
             cf::b(b1.is_some() && ctor_class == "second-instance-panic"), cf::b(bins_equal), cf::list(&draws_txt));
         let key = format!("{:?}|{:?}", p.stakes, st);
         if seen.insert(key) && !draws_txt.is_empty() { stats.distinct_nontrivial += 1; }
@@ -495,7 +521,84 @@ pub fn gen_c17(seed: u64, tier: Tier) -> CaseSet {
         descr.push(format!("case {}: {} k={} on {} validators ({}), constructor {}", cid, st.name(), st.k(), p.stakes.len(), p.fam, ctor_class));
         cases.push(txt);
     }
-    stats.rule = "pinned boundary configurations (49 equal stakes with k = 49, 4 x stake 1 in 3 bins, 5 / 100 equal validators under FA1-partition with 64 seats, 2 equal validators under FA2 with k = 1, 2, 3, TurbineSampler with 1, 2, 3 validators and fanout 0, stakes beyond 2^53 and totals of 2^63 / 2^64, decay at and beyond its capacity, constant random words) plus a seeded sweep: n in {1,2,3,4,5,7,10,33,49,64,65,100,200,1000,2000} (thorough: every n <= 64 as well), stake families equal / small integers / heavy-tailed / one dominant validator / stakes on and one unit around every 1/k boundary / lamport scale / big-plus-dust, k in {1,2,3,32,49,64,200}, all nine strategies; every configuration is constructed twice independently (constructor outcome and bins must coincide and equal the model's) and each instance samples from the same scripted random source (fair xorshift32 words behind boundary prefixes: runs of 0, of 2^32-1, mixed extremes); non-trivial = constructor succeeded and at least one committee was drawn; distinct by (stakes, strategy)".into();
+    // ---- histories: ONE instance used through both traits (single draws, quorums, clones, reset) ----
+    // (a) every sample_quorum right after a completed sample_quorum / reset() / on a stateless sampler must equal
+    // what a fresh instance returns for the same random words; (b) a clone taken mid-history must keep answering
+    // like the original; (c) the model, which carries the decaying sampler's counters, reproduces every draw.
+    let n_hist = if thorough { 400 } else { 48 };
+    for i in 0..n_hist {
+        let n = if i % 8 >= 3 { *rng.pick(&[10usize, 16, 33]) } else { *rng.pick(&[3usize, 4, 5, 7, 10, 16, 33]) };
+        let (stakes, famname) = stakes_for(&mut rng, i % 7, n, 8);
+        let stakes: Vec<u64> = if stakes.iter().map(|s| *s as u128).sum::<u128>() >= (1u128 << 63) { stakes.iter().map(|s| (*s >> 8).max(1)).collect() } else { stakes };
+        let n = stakes.len() as u64;
+        // three of four histories on the decaying sampler: max_samples 1 / 2 / 5/2, k well below n * cap
+        let st = match i % 8 {
+            0 => Strat::Stake(rng.range(1, 6)),
+            1 => if n <= 16 { Strat::Turbine(*rng.pick(&[1u64, 2, 200]), rng.range(1, 4)) } else { Strat::Uniform(rng.range(1, 6)) },
+            2 => Strat::AllSame(rng.below(n), rng.range(1, 4)),
+            // feasible whatever the history left behind: at most 4 unreset single draws precede a quorum
+            _ => { let (a, b) = *rng.pick(&[(1u64, 1u64), (1, 1), (2, 1), (5, 2)]); Strat::Decay(a, b, rng.range(1, ((n * (a / b)).saturating_sub(4) / 3).max(1))) }
+        };
+        let mk = || catch_unwind(AssertUnwindSafe(|| build(st, fac.infos(&stakes)))).ok();
+        let Some(orig) = mk() else { continue };
+        // op kinds: 0 single, 1 quorum, 2 reset, 3 clone.  Every history contains: single draws without reset,
+        // then a quorum, then quorums right after it; a clone taken while counters are non-zero; a reset.
+        let mut kinds: Vec<u64> = vec![0, 0];
+        for _ in 0..rng.below(3) { kinds.push(0); }
+        kinds.extend_from_slice(&[1, 1, 0, 3, 0, 1, 1, 2, 1]);
+        for _ in 0..rng.below(5) { kinds.push(*rng.pick(&[0u64, 0, 1, 1, 2, 3])); }
+        kinds.push(1); kinds.push(1);
+        let cid = cases.len() as u64;
+        *by_strat.entry(st.name()).or_default() += 1;
+        *by_fam.entry(famname).or_default() += 1;
+        let mut clone: Option<Built> = None;
+        let mut ops_txt = Vec::new();
+        let mut clean = true;
+        let stateless = !matches!(st, Strat::Decay(..));
+        for (oi, kind) in kinds.iter().enumerate() {
+            let prefix: Vec<u32> = if oi % 5 == 3 { vec![0; rng.range(1, 3) as usize] } else if oi % 7 == 5 { vec![u32::MAX; 2] } else { vec![] };
+            let tail = Tail::Split((rng.next() & 0xFFFF_FFFF) | 1);
+            let mut r0 = ScriptRng::new(prefix.clone(), tail.clone());
+            let (out, cl, fresh): (Option<Vec<u64>>, Option<Option<Vec<u64>>>, Option<Option<Vec<u64>>>) = match kind {
+                0 => {
+                    let mut r1 = r0.clone();
+                    let o = catch_unwind(AssertUnwindSafe(|| orig.sample_single(&mut r0).map(|v| vec![v]))).ok().flatten();
+                    let c = clone.as_ref().map(|c| catch_unwind(AssertUnwindSafe(|| c.sample_single(&mut r1).map(|v| vec![v]))).ok().flatten());
+                    (o, c, None)
+                }
+                1 => {
+                    let mut r1 = r0.clone();
+                    let mut r2 = r0.clone();
+                    let o = catch_unwind(AssertUnwindSafe(|| orig.sample(&mut r0))).ok();
+                    let c = clone.as_ref().map(|c| catch_unwind(AssertUnwindSafe(|| c.sample(&mut r1))).ok());
+                    let f = mk().map(|f| catch_unwind(AssertUnwindSafe(|| f.sample(&mut r2))).ok());
+                    (o, c, f)
+                }
+                2 => { orig.reset(); if let Some(c) = &clone { c.reset(); } (None, None, None) }
+                _ => { clone = orig.clone_instance(); (None, None, None) }
+            };
+            stats.evaluations += 1;
+            let class = if *kind <= 1 && out.is_none() { "panic" }
+                else if cl.as_ref().is_some_and(|c| *c != out) { "clone-differs" }
+                else if *kind == 1 && (stateless || clean) && fresh.as_ref().is_some_and(|f| *f != out) { "depends-on-instance-history" }
+                else { "ok" };
+            *by_class.entry(format!("{}:history:{}", st.name(), class)).or_default() += 1;
+            sigs.push((cid, oi as u64 + 1, if class == "ok" { format!("{}:history:ok", st.name()) } else { format!("{}:draw:{}", st.name(), class) }));
+            match kind { 0 => clean = false, 1 => clean = out.is_some(), 2 => clean = true, _ => {} }
+            let tail_txt = match &tail { Tail::Split(s) => format!("(TSplit {})", cf::n(*s)), Tail::Const(c) => format!("(TConst {})", cf::n(*c as u64)) };
+            let opt = |x: &Option<Option<Vec<u64>>>| match x { Some(v) => format!("(Some {})", r_out(v)), None => "None".to_string() };
+            ops_txt.push(format!("(mkHop {} {} {} {} {} {} {})", cf::n(*kind), cf::list(&prefix.iter().map(|w| cf::n(*w as u64)).collect::<Vec<_>>()), tail_txt, cf::n(r0.used),
+                if *kind <= 1 { r_out(&out) } else { "IPanic".to_string() }, opt(&cl), opt(&fresh)));
+            if *kind <= 1 && out.is_none() { break; }
+        }
+        let txt = format!("(CHist (mkHist {} {} {} {}))", cf::n(cid), cf::list(&stakes.iter().map(|s| cf::n(*s)).collect::<Vec<_>>()), st.coq(), cf::list(&ops_txt));
+        let key = format!("hist|{:?}|{:?}|{:?}", stakes, st, kinds);
+        if seen.insert(key) { stats.distinct_nontrivial += 1; }
+        descr.push(format!("case {}: history of {} calls on one {} instance (k={}) over {} validators ({}): single draws, quorums, clone, reset", cid, kinds.len(), st.name(), st.k(), n, famname));
+        cases.push(txt);
+    }
+
+    stats.rule = "pinned boundary configurations (49 equal stakes with k = 49, 4 x stake 1 in 3 bins, 5 / 100 equal validators under FA1-partition with 64 seats, 2 equal validators under FA2 with k = 1, 2, 3, TurbineSampler with 1, 2, 3 validators and fanout 0, stakes beyond 2^53 and totals of 2^63 / 2^64, decay at and beyond its capacity, constant random words) plus a seeded sweep: n in {1,2,3,4,5,7,10,33,49,64,65,100,200,1000,2000} (thorough: every n <= 64 as well), stake families equal / small integers / heavy-tailed / one dominant validator / stakes on and one unit around every 1/k boundary / lamport scale / big-plus-dust, k in {1,2,3,32,49,64,200}, all nine strategies; every configuration is constructed twice independently (constructor outcome and bins must coincide and equal the model's) and each instance samples from the same scripted random source (fair xorshift32 words behind boundary prefixes: runs of 0, of 2^32-1, mixed extremes); in addition histories on ONE instance of every strategy that offers both single draws and quorums (AllSame, Uniform, StakeWeighted, Turbine through IidQuorumSampler; DecayingAcceptance with max_samples 1, 2, 5/2 and k below capacity): unreset single draws (sample / sample_info), quorums right after them and right after each other, a Clone taken while counters are non-zero (must keep answering like the original), reset(), each sample_quorum also on a freshly built instance with the same words; non-trivial = constructor succeeded and at least one committee was drawn; distinct by (stakes, strategy)".into();
     let fmt = |m: HashMap<&'static str, u64>| { let mut v: Vec<_> = m.into_iter().collect(); v.sort(); v.iter().map(|(k, c)| format!("{}={}", k, c)).collect::<Vec<_>>().join(", ") };
     stats.distribution.push(("strategies".into(), fmt(by_strat)));
     stats.distribution.push(("stake_families".into(), fmt(by_fam)));
